@@ -435,7 +435,10 @@ private:
 			typename PrototypeInfo::ArgsTuple(std::forward<T>(first), std::forward<Args>(args)...)
 		));
 
-		if(doCanProcess()) {
+		// The event was just added, only whether notification is enabled matters. Don't use doCanProcess() here:
+		// without queueListMutex it can see the queue as empty while processIf/processUntil on another thread
+		// takes the event out and puts it back, then a waiting thread would never be notified.
+		if(doCanNotifyQueueAvailable()) {
 			queueListConditionVariable.notify_one();
 		}
 	}
@@ -458,7 +461,10 @@ private:
 			typename PrototypeInfo::ArgsTuple(std::forward<Args>(args)...)
 		));
 
-		if(doCanProcess()) {
+		// The event was just added, only whether notification is enabled matters. Don't use doCanProcess() here:
+		// without queueListMutex it can see the queue as empty while processIf/processUntil on another thread
+		// takes the event out and puts it back, then a waiting thread would never be notified.
+		if(doCanNotifyQueueAvailable()) {
 			queueListConditionVariable.notify_one();
 		}
 	}
